@@ -1,6 +1,6 @@
 (* C01 - lemmas.  Part 1: Relayer._find_instance / relay.  Part 2: FacadeAppleTV.takeover.
    Part 3: histories. *)
-From Coq Require Import List Bool Arith String Lia.
+From Coq Require Import List Bool Arith Lia.
 From PV Require Import Common.Cases C01.Model C01.Spec.
 Import ListNotations.
 
@@ -385,7 +385,7 @@ Proof.
   intros I [Len Lk] W. destruct o as [p ifs|k]; simpl.
   - destruct (f_takeover_cases p ifs (fs h)) as [(st' & E & Free & U)|(st' & E & U)]; rewrite E; simpl.
     + split.
-      * intro X. rewrite owners_app. simpl. rewrite app_nil_r, U.
+      * unfold inv; simpl. intro X. rewrite owners_app. simpl. rewrite app_nil_r, U.
         destruct (I X) as [Ix Lx]. destruct (memb X (known ifs)) eqn:M.
         -- apply memb_In in M. rewrite <- Ix, (Free X M). simpl. split; [reflexivity|lia].
         -- rewrite app_nil_r. split; assumption.
@@ -397,7 +397,7 @@ Proof.
            ++ rewrite nth_error_app2 in N by exact Ge.
               destruct (j - length (toks h)) as [|d]; simpl in N; [discriminate|]. destruct d; discriminate.
     + split.
-      * intro X. rewrite owners_app. simpl. rewrite !app_nil_r, U. exact (I X).
+      * unfold inv; simpl. intro X. rewrite owners_app. simpl. rewrite !app_nil_r, U. exact (I X).
       * split; [rewrite app_length; simpl; lia|]. intro j. rewrite Lk. split.
         -- intros (q & L & N). exists q, L. rewrite nth_error_app1; [exact N|].
            apply nth_error_Some. now rewrite N.
@@ -413,13 +413,13 @@ Proof.
     { destruct r; [|reflexivity]. assert (existsb (Nat.eqb k) rel = true) as T by (apply Lk; eauto).
       rewrite T in NR. discriminate. }
     simpl. split.
-    + intro X. destruct (I X) as [Ix Lx]. rewrite release_all_spec.
+    + unfold inv; simpl. intro X. destruct (I X) as [Ix Lx]. rewrite release_all_spec.
       rewrite (owners_mark X q L _ _ (eq_ind _ (fun l => length l <= 1) Lx _ Ix) N).
       destruct (memb X L); simpl; [split; [reflexivity|lia]|split; assumption].
     + split; [now rewrite length_mark|]. intro j. simpl. rewrite nth_error_mark.
       destruct (Nat.eqb j k) eqn:E.
       * apply Nat.eqb_eq in E. subst j. rewrite N. simpl. split; eauto.
-      * rewrite Nat.eqb_sym, E. simpl. apply Lk.
+      * simpl. apply Lk.
 Qed.
 
 Lemma run_cons h o rest :
